@@ -754,6 +754,7 @@ func C18(c *fw.Ctx) {
 		}
 	}
 	c18StaticFaults(c)
+	c18PredefinedNames(c)
 	c.Sample(map[string]string{"original": model.KwPrint + " 1 && 2;", "transformed": model.KwPrint + " /*c*/ ১ " + model.KwAnd + " //c\n (২) ;"})
 }
 
@@ -848,6 +849,63 @@ func c18StaticFaults(c *fw.Ctx) {
 			}
 			if k < 0 {
 				break
+			}
+		}
+	}
+}
+
+// c18PredefinedNames: (d) for the names the implementation itself binds before a program starts. Every
+// such name (observed: the bindings made in the parent-less scope while an empty program runs) that a
+// program may declare is a legal target of a renaming; a program that uses an undeclared name -- reads
+// it, assigns it, calls it, reads it inside a function, shadows it in a block and reads it afterwards --
+// must behave alike under the fresh spelling and under that name. The documented built-ins are reserved
+// and checked elsewhere; what is compared here is every other predefined name.
+func c18PredefinedNames(c *fw.Ctx) {
+	if c.Shard != 0 {
+		return
+	}
+	names := h.GlobalNames()
+	c.Bound("predefined_names_observed", len(names))
+	if len(names) == 0 {
+		c.Skip("no program-level binding observed for an empty program")
+		return
+	}
+	fresh := "zq_fresh"
+	uses := []struct{ name, tmpl string }{
+		{"read", model.KwPrint + " \"before\";\n" + model.KwPrint + " X;\n" + model.KwPrint + " \"after\";\n"},
+		{"assign", model.KwPrint + " \"before\";\nX = 1;\n" + model.KwPrint + " X;\n"},
+		{"call", model.KwPrint + " \"before\";\n" + model.KwPrint + " X(\"1\");\n" + model.KwPrint + " \"after\";\n"},
+		{"read-in-function", model.KwFun + " f() { " + model.KwReturn + " X; }\n" + model.KwPrint + " \"before\";\n" + model.KwPrint + " f();\n"},
+		{"shadow-then-read", "{ " + model.KwVar + " X = 1; " + model.KwPrint + " X; }\n" + model.KwPrint + " X;\n"},
+		{"declare", model.KwVar + " X = 1;\n" + model.KwPrint + " X;\n"},
+		{"parameter", model.KwFun + " f(X) { " + model.KwReturn + " X; }\n" + model.KwPrint + " f(2);\n" + model.KwPrint + " X;\n"},
+	}
+	for _, g := range names {
+		if model.IsBuiltin(g) {
+			continue
+		}
+		c.Count("predefined_names_not_documented")
+		// may a program declare it?
+		d, _, _ := c18Run(c, model.KwVar+" "+g+" = 1;\n", "")
+		if d.status == 65 {
+			c.Count("predefined_names_reserved")
+			continue
+		}
+		for _, u := range uses {
+			ref, _, _ := c18Run(c, strings.ReplaceAll(u.tmpl, "X", fresh), "")
+			tsrc := strings.ReplaceAll(u.tmpl, "X", g)
+			got, o, _ := c18Run(c, tsrc, "")
+			c.R.States++
+			c.R.Transitions++
+			refDiag := diagMessage(ref.diag, fresh)
+			gotDiag := diagMessage(got.diag, g)
+			if ref.stdout != got.stdout || ref.status != got.status || refDiag != gotDiag {
+				r := fw.Replay{Mode: "file", Program: tsrc, CLI: true, InStdout: o.Stdout, InStderr: o.Stderr, InStatus: o.Status}
+				r.Sig = "C18|rename-to-predefined-name|" + u.name
+				r.What = "a user identifier consistently renamed to a declarable name that the implementation predefines: " + g
+				r.Expected = fmt.Sprintf("as with the spelling %s: status %d stdout %q diagnostic %q", fresh, ref.status, trunc(ref.stdout, 200), refDiag)
+				r.Observed = fmt.Sprintf("status %d stdout %q diagnostic %q", got.status, trunc(got.stdout, 200), gotDiag)
+				c.Violate(r)
 			}
 		}
 	}
